@@ -146,6 +146,12 @@ pub fn check_program(prog: &asp::Program, inputs: &[(String, usize)], ws: &[i128
             return res;
         }
     };
+    // the completion of a closed theory is a set of sentences
+    let open: Vec<String> = comp.formulas.iter().filter(|f| !f.free_variables().is_empty()).map(|f| f.to_string()).collect();
+    if !open.is_empty() {
+        res.structural.push(json!({"kind": "completed definition with free variables", "formulas": open}));
+        return res;
+    }
     // every non-input predicate owns exactly one completed definition
     for p in &theory_preds {
         let n = comp.formulas.iter().filter(|f| head_predicate(f).as_ref() == Some(p)).count();
